@@ -898,6 +898,51 @@ fn partition(
     let missing_count = min(to_drop.len(), n.saturating_sub(to_retain.len()));
     to_retain.extend(to_drop.drain(0..missing_count));
 
+    // Whatever a retained symbolic link passes through on its way to the file - the file itself
+    // and the links in between - must stay as well: dropping (or replacing) it would leave the
+    // retained link dangling or looping, and if the link is all that is retained, the data
+    // would be lost (with --isolate a link in one root and its target in another root are
+    // separate replicas).
+    let is_link = |p: &std::path::Path| {
+        fs::symlink_metadata(p)
+            .map(|m| m.file_type().is_symlink())
+            .unwrap_or(false)
+    };
+    // the path with its directory resolved, but not the last component
+    let dir_resolved = |p: &std::path::Path| -> Option<std::path::PathBuf> {
+        let dir = fs::canonicalize(p.parent()?).ok()?;
+        Some(dir.join(p.file_name()?))
+    };
+    loop {
+        let mut passed_through = Vec::new();
+        for f in to_retain.iter().flat_map(|g| g.files.iter()) {
+            let mut hop = f.path.to_path_buf();
+            let mut hops = 0;
+            while is_link(&hop) && hops < 40 {
+                let Ok(target) = fs::read_link(&hop) else { break };
+                let target = hop.parent().map(|d| d.join(&target)).unwrap_or(target);
+                let Some(target) = dir_resolved(&target) else { break };
+                passed_through.push(target.clone());
+                hop = target;
+                hops += 1;
+            }
+        }
+        if passed_through.is_empty() {
+            break;
+        }
+        let needed = to_drop.iter().position(|g| {
+            g.files.iter().any(|f| {
+                dir_resolved(&f.path.to_path_buf())
+                    .map(|p| passed_through.contains(&p))
+                    .unwrap_or(false)
+            })
+        });
+        match needed {
+            Some(i) => to_retain.push(to_drop.remove(i)),
+            None => break,
+        }
+    }
+
     assert!(to_retain.len() >= n || to_drop.is_empty());
     Ok(PartitionedFileGroup {
         to_keep: to_retain.into_iter().flat_map(|g| g.files).collect(),
